@@ -275,6 +275,45 @@ Fixpoint counts_ok (cnt : string -> nat) (p : particle) : bool :=
   | PAny _ _ => true
   end.
 
+(* an attribute member: absent only if optional (and never for a member the constructor gives a default), else in
+   the value space of its type *)
+Definition attr_conf (S : schema) (o : obj) (XA : list xattr) (ea : exp_attr) : bool :=
+  match find_xa XA (ea_xml ea), lookup (ea_py ea) (o_fields F o) with
+  | Some a, Some VNone => negb (xa_req a) && match ea_guard ea with GNotNone => true | GNe _ => false end
+  | Some a, Some v => value_ok S a v
+  | _, _ => false
+  end.
+
+(* a child member: components of exactly the declared type, each conforming (rec); text in the declared simple type *)
+Definition kid_conf (S : schema) (rec : obj -> bool) (o : obj) (PS : list particle) (ek : exp_kid) : bool :=
+  match lookup (ek_py ek) (o_fields F o) with
+  | None => false
+  | Some v =>
+    (Z.of_nat (vcount v) <=? gds_unbounded)%Z &&
+    match ek_kind ek, v with
+    | CAny, VRaw [] => true
+    | CText, VNone => true
+    | CText, VStr s => printable s &&
+                       match decl_of PS (ek_tag ek) with Some ty => lex_ok_named S ty s | None => false end
+    | CObj, VNone => true
+    | CObj, VObj o' =>
+      match decl_of PS (ek_tag ek) with
+      | Some ty => String.eqb (o_cls F o') ty && rec o'
+      | None => false
+      end
+    | CObjList, VObjs l =>
+      match decl_of PS (ek_tag ek) with
+      | Some ty => forallb (fun o' => String.eqb (o_cls F o') ty && rec o') l
+      | None => false
+      end
+    | _, _ => false
+    end
+  end.
+
+(* nothing but the exported child members holds components *)
+Definition holder_ok (EK : list exp_kid) (nv : string * value) : bool :=
+  mem (fst nv) (map ek_py EK) || match snd nv with VObj _ => false | VObjs (_ :: _) => false | _ => true end.
+
 Section Conforms.
 Variable good : string -> bool.      (* classes for which the theorem's agreement obligations hold *)
 
@@ -285,48 +324,13 @@ Fixpoint conformsb (fuel : nat) (T : tables) (S : schema) (o : obj) : bool :=
     let c := o_cls F o in
     match find_cls T c, find_ct (s_ctypes S) c with
     | Some _, Some _ =>
-      let EA := exp_attrs_of (cfuel T) T c in
       let EK := exp_kids_of (cfuel T) T c in
-      let XA := eff_attrs S c in
       let PS := eff_parts S c in
       good c &&
-      (* attributes *)
-      forallb (fun ea =>
-        match find_xa XA (ea_xml ea), lookup (ea_py ea) (o_fields F o) with
-        | Some a, Some VNone => negb (xa_req a) && match ea_guard ea with GNotNone => true | GNe _ => false end
-        | Some a, Some v => value_ok S a v
-        | _, _ => false
-        end) EA &&
-      (* children *)
-      forallb (fun ek =>
-        match lookup (ek_py ek) (o_fields F o) with
-        | None => false
-        | Some v =>
-          (Z.of_nat (vcount v) <=? gds_unbounded)%Z &&
-          match ek_kind ek, v with
-          | CAny, VRaw [] => true
-          | CText, VNone => true
-          | CText, VStr s => printable s &&
-                             match decl_of PS (ek_tag ek) with Some ty => lex_ok_named S ty s | None => false end
-          | CObj, VNone => true
-          | CObj, VObj o' =>
-            match decl_of PS (ek_tag ek) with
-            | Some ty => String.eqb (o_cls F o') ty && conformsb f T S o'
-            | None => false
-            end
-          | CObjList, VObjs l =>
-            match decl_of PS (ek_tag ek) with
-            | Some ty => forallb (fun o' => String.eqb (o_cls F o') ty && conformsb f T S o') l
-            | None => false
-            end
-          | _, _ => false
-          end
-        end) EK &&
-      (* cardinalities and choices *)
+      forallb (attr_conf S o (eff_attrs S c)) (exp_attrs_of (cfuel T) T c) &&
+      forallb (kid_conf S (conformsb f T S) o PS) EK &&
       forallb (counts_ok (cnt_of o EK)) PS &&
-      (* nothing but the exported members holds components *)
-      forallb (fun nv => mem (fst nv) (map ek_py EK) ||
-                         match snd nv with VObj _ => false | VObjs (_ :: _) => false | _ => true end) (o_fields F o)
+      forallb (holder_ok EK) (o_fields F o)
     | _, _ => false
     end
   end.
@@ -347,6 +351,9 @@ Arguments value_ok {F} F_eqb F_ltb F_of_dec finite S a v.
 Arguments vcount {F} v.
 Arguments cnt_of {F} o EK t.
 Arguments conformsb {F} F_eqb F_ltb F_of_dec parse_float finite good fuel T S o.
+Arguments attr_conf {F} F_eqb F_ltb F_of_dec finite S o XA ea.
+Arguments kid_conf {F} F_eqb F_ltb F_of_dec parse_float finite S rec o PS ek.
+Arguments holder_ok {F} EK nv.
 
 (* ---------------------------------------------------------------- agreement between bindings and schema
    (decidable; evaluated on the generated tables by vm_compute in the per-run instance files) *)
@@ -604,10 +611,13 @@ Definition checkedb (V : vtables) (T : tables) (S : schema) (c m : string) (vk :
   | VReq => existsb (fun it => match it with ICardReq m' true => String.eqb m' m | _ => false end) (items_of V c)
   | VVal =>
     match member_stype T S c m with
-    | Some (xt, _, _) =>
+    | Some (xt, _, oa) =>
+      match oa with Some {| xa_fixed := Some _ |} => false | _ => true end &&
       existsb (fun it => match it with
-                         | IDefined m' stn => String.eqb m' m &&
-                                              match find_stv (mro V c) stn with Some sv => sv_exact sv xt | None => false end
+                         | IDefined m' stn =>
+                           if String.eqb m' m
+                           then match find_stv (mro V c) stn with Some sv => sv_exact sv xt | None => false end
+                           else false
                          | _ => false
                          end) (items_of V c)
     | None => false
@@ -649,7 +659,10 @@ Definition violation (T : tables) (S : schema) (o : obj F) (m : string) : option
   | Some (st, is_attr, oa) =>
     match field o m with
     | VNone => match oa with Some a => if xa_req a then Some VReq else None | None => None end
-    | VStr s => if prim_is_string (st_prim st) && printable s && negb (string_ok st s) then Some VVal else None
+    | VStr s => if prim_is_string (st_prim st) && printable s &&
+                   (negb (string_ok st s) ||
+                    match oa with Some {| xa_fixed := Some f |} => negb (String.eqb f s) | _ => false end)
+                then Some VVal else None
     | VFlt x => match st_prim st with
                 | PFloat | PDouble => if float_facets_ok st x then None else Some VVal
                 | _ => None end
@@ -688,10 +701,13 @@ Definition unchecked (V : vtables) (T : tables) (S : schema) : list (string * st
           | Some (_, _, Some a) => xa_req a && negb (checkedb V T S c m VReq) | _ => false end then [(c, m, VReq)] else []) ++
       (if match member_stype T S c m with
           | Some (st, _, _) =>
-            (match st_enums st, st_pats st, st_facets st, st_prim st with
-             | [], [], [], PString | [], [], [], PAnyURI | [], [], [], PFloat | [], [], [], PDouble => false
-             | _, _, _, _ => true end) && negb (checkedb V T S c m VVal)
+            if (match st_enums st, st_pats st, st_facets st, st_prim st with
+                | [], [], [], PString | [], [], [], PAnyURI | [], [], [], PFloat | [], [], [], PDouble => false
+                | _, _, _, _ => true end)
+            then negb (checkedb V T S c m VVal) else false
           | None => false end then [(c, m, VVal)] else []) ++
+      (if match member_stype T S c m with
+          | Some (_, _, Some {| xa_fixed := Some _ |}) => true | _ => false end then [(c, m, VVal)] else []) ++
       (match find_ek_py m (exp_kids_of (cfuel T) T c) with
        | Some ek =>
          match ek_kind ek, plain_bounds_of (eff_parts S c) (ek_tag ek) with
